@@ -6,6 +6,7 @@
   variable takes one of its `len` values.
 -/
 import DDProofs.MddProofs
+import DDProofs.MddConv
 import DDProofs.Inv
 namespace DD
 
@@ -131,6 +132,113 @@ theorem C15_gc_spec (m : MddMgr) (ext : Nat → Nat) (h : MInv m) (hx : RefExact
     (roots : Option (List Int)) (m' : MddMgr) (hr : mCollectGarbage roots m = (.ok (), m')) :
     GcOK m ext roots.isNone m' :=
   mddGc_spec m ext h hx roots m' hr
+
+/-! ### `bdd_to_mdd` -/
+
+/-- BDD denotation by variable NAME (levels change when `bdd_to_mdd` reorders) -/
+def denName (t : Tbl) (u : Int) (β : String → Bool) : Bool :=
+  den t u (fun lvl => match t.l2v[lvl]? with
+    | some v => β v
+    | none => false)
+
+/-- the bit assignment that encodes an integer assignment: bit `k` of the value of the integer
+variable that lists the bit at position `k` (first listed bit least significant) -/
+def bitsOfInts (dvars : List MVar) (α : MAsg) : String → Bool := fun bit =>
+  match dvars.find? (fun d => d.bits.contains bit) with
+  | none => false
+  | some d => (α d.level >>> d.bits.idxOf bit) % 2 == 1
+
+/-- number of edges of the BDD into node `u` -/
+def bddIndeg (t : Tbl) (u : Nat) : Nat :=
+  t.succ.foldl (fun acc _ n =>
+    acc + (if n.lo.natAbs = u then 1 else 0) + (if n.hi.natAbs = u then 1 else 0)) 0
+
+/-- `dvars` is a proper description: distinct names, levels `0..n-1`, non-empty bit lists,
+`len = 2 ** len(bitnames)`, and the bit lists partition the declared BDD variables -/
+structure DvarsOK (mb : Mgr) (dvars : List MVar) : Prop where
+  names : (dvars.map (·.name)).Nodup
+  levels : (dvars.map (·.level)).Perm (List.range dvars.length)
+  len : ∀ d ∈ dvars, d.bits ≠ [] ∧ d.len = 2 ^ d.bits.length
+  bits : (dvars.flatMap (·.bits)).Perm mb.tbl.vars.keys
+
+/-- the user holds a reference to node `u`: its count exceeds what the diagram accounts for
+(in-degree, plus the permanent reference of the terminal) -/
+def BddHeld (mb : Mgr) (u : Nat) : Prop :=
+  ∃ c, mb.ref[u]? = some c ∧ bddIndeg mb.tbl u + (if u = 1 then 1 else 0) < c
+
+/-- C15, conversion part, at full strength: for a BDD manager satisfying its invariant with
+sound counts and a proper `dvars`, whenever `bdd_to_mdd` returns `(mdd, umap)`
+(for any recorded iteration orders):
+* the MDD manager satisfies its invariant and has the variables `dvars`;
+* every `umap` entry `u ↦ r` is an MDD reference whose value on each valid integer assignment
+  equals the BDD's value of `u` on the encoded bit assignment (so `flip(umap[|u|], u)` is right
+  for complemented BDD references too);
+* every BDD node the user holds is in `umap`;
+* the BDD manager keeps its invariant, and every held reference is still a node denoting the
+  same function of the variable names. -/
+def bddToMdd_statement : Prop :=
+  ∀ (mb : Mgr) (dvars : List MVar) (lev : Option (List Nat)) (out : B2MOut) (mb' : Mgr),
+    Inv mb → (∀ u c, mb.ref[u]? = some c → bddIndeg mb.tbl u ≤ c) → DvarsOK mb dvars →
+    bddToMdd dvars lev mb = (.ok out, mb') →
+    MInv out.mdd ∧ out.mdd.tbl.vars = dvars ∧ Inv mb' ∧
+    (∀ (u : Nat) (r : Int), out.umap.lookup u = some r →
+      mb'.tbl.Mem (u : Int) ∧ out.mdd.tbl.Mem r ∧
+      ∀ (s : Int), s.natAbs = u → ∀ α, MValid out.mdd.tbl α →
+        denM out.mdd.tbl (flip r s) α = denName mb'.tbl s (bitsOfInts dvars α)) ∧
+    (∀ u, mb'.tbl.Mem ((u : Nat) : Int) → BddHeld mb' u → (out.umap.lookup u).isSome = true) ∧
+    (∀ u, mb.tbl.Mem ((u : Nat) : Int) → BddHeld mb u →
+      mb'.tbl.Mem ((u : Nat) : Int) ∧ BddHeld mb' u ∧
+      ∀ (s : Int), s.natAbs = u → ∀ β, denName mb'.tbl s β = denName mb.tbl s β)
+
+/-- C15, conversion part, the half that is proved: the main loop of `bdd_to_mdd`
+(`b2mLoop`: per kept BDD node, `cofactor` per integer value, edges mapped through `umap`,
+`mdd.find_or_add`) produces an MDD manager satisfying its invariant and a `umap` all of whose
+entries denote the intended function `S u` — for ANY intended semantics `S` of BDD references
+as functions of integer assignments — provided the BDD side delivers, at every iteration,
+`BddSideOK`: the `i`-th successor is the `umap` image of a reference in a later zone that
+agrees with `u` where the integer variable equals `i`.  (Discharging that hypothesis for
+`S u α = denName mb u (bitsOfInts dvars α)` needs the specifications of `reorder` and
+`cofactor` on the BDD side: C07/C04.) -/
+theorem C15_bddToMdd_partial (S : Int → MAsg → Bool) (L : Nat → Nat)
+    (hSneg : ∀ x α, S (-x) α = !S x α)
+    (rm : List Nat) (btv : List (String × MVar)) (P : Mgr → Prop) (K : Nat → Prop)
+    (hBdd : ∀ u umap mb var succs mb1, P mb → K u →
+      b2mIntSucc btv u umap mb = (.ok (var, succs), mb1) → P mb1 ∧ BddSideOK S L u umap var succs)
+    (ord : List Nat) (dvars : List MVar) (mb : Mgr) (out : B2MOut) (mb' : Mgr)
+    (hK : ∀ u, u ∈ ord → rm.contains u = false → K u) (hP : P mb)
+    (hS1 : ∀ α, S 1 α = true) (hL1 : L 1 ≤ dvars.length)
+    (hr : b2mLoop rm btv ord (MddMgr.new (some dvars)) [(1, 1)] mb = (.ok out, mb')) :
+    P mb' ∧ MInv out.mdd ∧ out.mdd.tbl.vars = dvars ∧
+    ∀ (u : Nat) (r : Int), out.umap.lookup u = some r →
+      out.mdd.tbl.Mem r ∧ ∀ (s : Int), s.natAbs = u → ∀ α, MValid out.mdd.tbl α →
+        denM out.mdd.tbl (flip r s) α = S s α := by
+  have h0 : UmapOK S L (MddMgr.new (some dvars)) [(1, 1)] := by
+    constructor
+    intro x r hl
+    by_cases hx : x = 1
+    · subst hx
+      simp [List.lookup_cons] at hl
+      subst hl
+      refine ⟨Or.inl rfl, ?_, ?_⟩
+      · rw [MTbl.levelOf_term _ 1 rfl]; exact hL1
+      · intro α _; rw [denM_one]; exact (hS1 α).symm
+    · have : (x == 1) = false := by simpa using hx
+      simp [List.lookup_cons, this] at hl
+  obtain ⟨hP', hinv, hext, hU⟩ := b2mLoop_partial S L hSneg rm btv P K hBdd ord _ _ mb out mb' hK hP
+    (MInv.init dvars) h0 hr
+  refine ⟨hP', hinv, hext.vars.symm, ?_⟩
+  intro u r hl
+  obtain ⟨hm, _, hden⟩ := hU.ok u r hl
+  refine ⟨hm, ?_⟩
+  intro s hs α hα
+  unfold flip
+  split
+  · next hneg =>
+    have : s = -((u : Nat) : Int) := by omega
+    rw [denM_neg _ hinv.wf.toMWF r α hm, hden α hα, this, hSneg]
+  · next hneg =>
+    have : s = ((u : Nat) : Int) := by omega
+    rw [hden α hα, this]
 
 /-! ### non-vacuity -/
 
